@@ -56,7 +56,7 @@ fn close_relations_in_place(
         edge_to_word.insert((ct.get(point, gen).unwrap(), -gen), w.inverse());
         edge_to_word.insert((point, gen), w);
 
-        for r in rels_by_gen[&gen].iter() {
+        for r in rels_by_gen.get(&gen).into_iter().flatten() {
             let mut cuts = vec![];
             let mut x = point;
 
